@@ -43,7 +43,13 @@ func (w *world) leave(src int) { w.ref[src]-- }
 //go:norace
 func (w *world) refOf(src int) int64 { return w.ref[src] }
 
-func srcName(i int) string { return string(rune('a' + i)) }
+// The two sources are distinct byte strings that are NOT valid UTF-8 and differ in one such byte only (Latin-1
+// header values, raw binary keys): they stay distinct sources.
+func srcName(i int) string { return "k" + string([]byte{0xe9 - byte(i)}) }
+
+func srcLabel(i int) string { return string(rune('a' + i)) }
+
+func srcIndex(name string) int { return int(0xe9 - name[len(name)-1]) }
 
 func extractor() utils.SourceExtractor {
 	return utils.ExtractorFunc(func(r *http.Request) (string, int64, error) { return r.Header.Get("Source"), 1, nil })
@@ -74,8 +80,11 @@ func scenarioW(prop string, limit int64, sources []int, panics []bool, bound int
 		_ = cur
 		inst := &sched.Instance{}
 		handler := http.HandlerFunc(func(rw http.ResponseWriter, r *http.Request) {
-			src := int(r.Header.Get("Source")[0] - 'a')
+			src := srcIndex(r.Header.Get("Source"))
 			w.enter(src)
+			// the handler (or something behind it) edits the request it was handed - here the very header that named
+			// the source: the slot stays booked against the source the request ARRIVED with
+			r.Header.Del("Source")
 			vrt.Yield() // the request is in flight
 			if r.Header.Get("Panic") != "" {
 				panic("handler aborts")
@@ -106,7 +115,7 @@ func scenarioW(prop string, limit int64, sources []int, panics []bool, bound int
 		w.cl = cl
 		for i := range sources {
 			i := i
-			inst.Names = append(inst.Names, fmt.Sprintf("req%d(%s)", i, srcName(sources[i])))
+			inst.Names = append(inst.Names, fmt.Sprintf("req%d(%s)", i, srcLabel(sources[i])))
 			inst.Bodies = append(inst.Bodies, func() {
 				src := sources[i]
 				req := newReq(src)
@@ -134,7 +143,7 @@ func scenarioW(prop string, limit int64, sources []int, panics []bool, bound int
 				} else if rec.Code == http.StatusTooManyRequests {
 					// no scheduling point separates the rejecting lock acquisition from this line
 					if got := w.refOf(src); got != limit {
-						vrt.Fail(prop+":connlimit:spurious-429", fmt.Sprintf("source %s rejected while only %d of its requests were in flight (limit %d)", srcName(src), got, limit))
+						vrt.Fail(prop+":connlimit:spurious-429", fmt.Sprintf("source %s rejected while only %d of its requests were in flight (limit %d)", srcLabel(src), got, limit))
 					}
 				} else {
 					vrt.Fail(prop+":connlimit:bad-status", fmt.Sprintf("unexpected status %d", rec.Code))
@@ -174,7 +183,7 @@ func scenarioW(prop string, limit int64, sources []int, panics []bool, bound int
 				}
 				if n200 != int(limit) || n429 != 1 || statuses[0] != 429 {
 					fails = append(fails, vrt.Failure{Key: prop + ":connlimit:slot-leak",
-						Detail: fmt.Sprintf("after all requests finished, source %s admitted %d nested requests then answered %v (want %d admissions then one 429)", srcName(src), n200, statuses, limit)})
+						Detail: fmt.Sprintf("after all requests finished, source %s admitted %d nested requests then answered %v (want %d admissions then one 429)", srcLabel(src), n200, statuses, limit)})
 				}
 			}
 			return fails
